@@ -28,38 +28,42 @@ func init() {
 		"(*sync.RWMutex).RUnlock": stubUnlock(false),
 		"(*sync.Once).Do":         stubOnceDo,
 		// ----- atomic -----
-		"(*sync/atomic.Bool).Load":            stubAtomicLoad,
-		"(*sync/atomic.Bool).Store":           stubAtomicStore,
-		"(*sync/atomic.Bool).Swap":            stubAtomicSwap,
-		"(*sync/atomic.Bool).CompareAndSwap":  stubAtomicCAS,
-		"(*sync/atomic.Value).Load":           stubAtomicLoad,
-		"(*sync/atomic.Value).Store":          stubAtomicStore,
-		"(*sync/atomic.Int32).Load":           stubAtomicLoad,
-		"(*sync/atomic.Int32).Store":          stubAtomicStore,
-		"(*sync/atomic.Int64).Load":           stubAtomicLoad,
-		"(*sync/atomic.Int64).Store":          stubAtomicStore,
-		"(*sync/atomic.Uint32).Load":          stubAtomicLoad,
-		"(*sync/atomic.Uint32).Store":         stubAtomicStore,
-		"(*sync/atomic.Uint64).Load":          stubAtomicLoad,
-		"(*sync/atomic.Uint64).Store":         stubAtomicStore,
-		"(*sync/atomic.Int32).Add":            stubAtomicAdd,
-		"(*sync/atomic.Int64).Add":            stubAtomicAdd,
-		"(*sync/atomic.Uint32).Add":           stubAtomicAdd,
-		"(*sync/atomic.Uint64).Add":           stubAtomicAdd,
-		"(*sync/atomic.Int32).CompareAndSwap": stubAtomicCAS,
-		"sync/atomic.CompareAndSwapInt32":     stubAtomicFnCAS,
-		"sync/atomic.CompareAndSwapInt64":     stubAtomicFnCAS,
-		"sync/atomic.CompareAndSwapUint32":    stubAtomicFnCAS,
-		"sync/atomic.StoreInt32":              func(e *Engine, c *callCtx) bool { e.store(c.st, c.args[0], c.args[1]); return true },
-		"sync/atomic.StoreInt64":              func(e *Engine, c *callCtx) bool { e.store(c.st, c.args[0], c.args[1]); return true },
-		"sync/atomic.StoreUint32":             func(e *Engine, c *callCtx) bool { e.store(c.st, c.args[0], c.args[1]); return true },
-		"sync/atomic.LoadInt32":               func(e *Engine, c *callCtx) bool { c.set(e.load(c.st, c.args[0])); return true },
-		"sync/atomic.LoadInt64":               func(e *Engine, c *callCtx) bool { c.set(e.load(c.st, c.args[0])); return true },
-		"sync/atomic.LoadUint32":              func(e *Engine, c *callCtx) bool { c.set(e.load(c.st, c.args[0])); return true },
-		"sync/atomic.AddInt32":                stubAtomicFnAdd,
-		"sync/atomic.AddInt64":                stubAtomicFnAdd,
-		"sync/atomic.AddUint32":               stubAtomicFnAdd,
-		"sync/atomic.AddUint64":               stubAtomicFnAdd,
+		"(*sync/atomic.Bool).Load":                 stubAtomicLoad,
+		"(*sync/atomic.Bool).Store":                stubAtomicStore,
+		"(*sync/atomic.Bool).Swap":                 stubAtomicSwap,
+		"(*sync/atomic.Bool).CompareAndSwap":       stubAtomicCAS,
+		"(*sync/atomic.Value).Load":                stubAtomicLoad,
+		"(*sync/atomic.Value).Store":               stubAtomicStore,
+		"(*sync/atomic.Int32).Load":                stubAtomicLoad,
+		"(*sync/atomic.Int32).Store":               stubAtomicStore,
+		"(*sync/atomic.Int64).Load":                stubAtomicLoad,
+		"(*sync/atomic.Int64).Store":               stubAtomicStore,
+		"(*sync/atomic.Uint32).Load":               stubAtomicLoad,
+		"(*sync/atomic.Uint32).Store":              stubAtomicStore,
+		"(*sync/atomic.Uint64).Load":               stubAtomicLoad,
+		"(*sync/atomic.Uint64).Store":              stubAtomicStore,
+		"(*sync/atomic.Int32).Add":                 stubAtomicAdd,
+		"(*sync/atomic.Int64).Add":                 stubAtomicAdd,
+		"(*sync/atomic.Uint32).Add":                stubAtomicAdd,
+		"(*sync/atomic.Uint64).Add":                stubAtomicAdd,
+		"(*sync/atomic.Int32).CompareAndSwap":      stubAtomicCAS,
+		"(*sync/atomic.Pointer[T]).Load":           stubAtomicLoad,
+		"(*sync/atomic.Pointer[T]).Store":          stubAtomicStore,
+		"(*sync/atomic.Pointer[T]).Swap":           stubAtomicSwap,
+		"(*sync/atomic.Pointer[T]).CompareAndSwap": stubAtomicCAS,
+		"sync/atomic.CompareAndSwapInt32":          stubAtomicFnCAS,
+		"sync/atomic.CompareAndSwapInt64":          stubAtomicFnCAS,
+		"sync/atomic.CompareAndSwapUint32":         stubAtomicFnCAS,
+		"sync/atomic.StoreInt32":                   func(e *Engine, c *callCtx) bool { e.store(c.st, c.args[0], c.args[1]); return true },
+		"sync/atomic.StoreInt64":                   func(e *Engine, c *callCtx) bool { e.store(c.st, c.args[0], c.args[1]); return true },
+		"sync/atomic.StoreUint32":                  func(e *Engine, c *callCtx) bool { e.store(c.st, c.args[0], c.args[1]); return true },
+		"sync/atomic.LoadInt32":                    func(e *Engine, c *callCtx) bool { c.set(e.load(c.st, c.args[0])); return true },
+		"sync/atomic.LoadInt64":                    func(e *Engine, c *callCtx) bool { c.set(e.load(c.st, c.args[0])); return true },
+		"sync/atomic.LoadUint32":                   func(e *Engine, c *callCtx) bool { c.set(e.load(c.st, c.args[0])); return true },
+		"sync/atomic.AddInt32":                     stubAtomicFnAdd,
+		"sync/atomic.AddInt64":                     stubAtomicFnAdd,
+		"sync/atomic.AddUint32":                    stubAtomicFnAdd,
+		"sync/atomic.AddUint64":                    stubAtomicFnAdd,
 		// base64 of a byte string: injective opaque term of the bytes (concrete length)
 		"(*encoding/base64.Encoding).EncodeToString": func(e *Engine, c *callCtx) bool {
 			b := c.args[1].(SliceV)
@@ -212,6 +216,14 @@ func init() {
 		"crypto/rand.Read": func(e *Engine, c *callCtx) bool {
 			b := c.args[0].(SliceV)
 			n := e.mustConst(b.ln, "rand.Read length")
+			if c.st.ghost == nil {
+				c.st.ghost = map[string]Value{}
+			}
+			cnt, _ := c.st.ghost["rand_bytes_read"].(IntV)
+			if cnt.t == nil {
+				cnt = e.goInt(0)
+			}
+			c.st.ghost["rand_bytes_read"] = e.ibin(token.ADD, cnt, e.goInt(int64(n)))
 			src := e.freshBytes(c.st, "rand", n)
 			if n > 0 {
 				o := c.st.mut(b.obj)
